@@ -5,6 +5,7 @@ CONSTANTS
   Budget = 1
   KeepSsz = TRUE
   MaxOps = 8
+  Slack = 0
   UseResult = TRUE
-INVARIANTS TypeOK NoOrphan Reclaimed FreeIsEmpty
+INVARIANTS TypeOK NoOrphan Reclaimed FreeIsEmpty NoStale
 CHECK_DEADLOCK FALSE
